@@ -601,7 +601,23 @@ def f_plural():
         yield dict(d, plural=True)
 
 
+def f_widecond():
+    """If / Elif / Else chains whose conditions are 2-bit values (true when non-zero): assignments in all four domains and
+    calls in every branch, at module level, inside a transaction and inside a conditionally called method"""
+    doms = ["comb", "sync", "av_comb", "top_comb"]
+    A4 = [asg(d) for d in doms]
+    m0 = M("M0")
+    for d in (D([[If(A4, A4, A4, has_else=True)]]), D([[If(A4, A4)]]), D([[If(A4)] + A4[2:3]]),
+              D([[m0, T("T0", [If(A4 + [call("M0")])])]]),
+              D([[m0, T("T0", [If(A4[2:3], A4[2:3] + [call("M0")], A4[2:3], has_else=True)])]]),
+              D([[m0, T("T0", [If([call("M0")], [call("M0")] + A4[2:3], has_else=True)])]]),
+              D([[m0, M("N0", [If(A4, A4 + [call("M0")])]), T("T0", [call("N0", en="in")])]]),
+              D([[m0, If([T("T0", [call("M0")])], [T("T1", [call("M0")])])]])):
+        yield dict(d, cw=2)
+
+
 FAMILIES = {
+    "widecond": f_widecond,
     "plural": f_plural,
     "xmod": f_xmod,
     "provrel": f_provrel,
